@@ -274,6 +274,132 @@ def wait (nid : Nat) (filter : Option Nat) (t0 timeout : Nat) (c : Consumer) (ws
     WaitOut :=
   waitLoop nid filter (t0 + timeout) c ws
 
+/-! ### several threads in `wait` at once: the condition variable made explicit
+
+`on_emcy` calls `self.emcy_received.notify_all()` after it recorded an entry.  Here the threads
+blocked in `Condition.wait` are a list; `notify_all` marks every one of them runnable; a marked
+(or timed-out) thread later gets the lock and executes the rest of the loop body of `wait`. -/
+
+/-- a thread that called `wait(filter, timeout)` -/
+structure Waiter where
+  id : Nat                  -- the harness's name for the thread
+  filter : Option Nat
+  deadline : Nat            -- `end_time`
+  prev : Nat                -- `prev_log_size` of the current loop iteration
+  notified : Bool           -- released by `notify_all`, has not run yet
+  res : Option WaitRes      -- `some r` once `wait` has returned `r`
+deriving Repr, DecidableEq
+
+/-- the thread takes the lock, reads `len(self.log)` and blocks in `Condition.wait` -/
+def Waiter.enter (id : Nat) (filter : Option Nat) (deadline : Nat) (c : Consumer) : Waiter :=
+  ⟨id, filter, deadline, c.log.length, false, none⟩
+
+/-- what `notify_all` does to one thread: a blocked thread becomes runnable, a thread that has
+    left `wait` is not on the condition variable -/
+def Waiter.mark (w : Waiter) : Waiter :=
+  if w.res.isNone then { w with notified := true } else w
+
+/-- `Condition.notify_all()` -/
+def notifyAll (ws : List Waiter) : List Waiter := ws.map Waiter.mark
+
+/-- does this event make `on_emcy` reach its `notify_all()` (the frame unpacked) -/
+def notifies (nid : Nat) : Ev → Bool
+  | .frame d ts => (entryOfFrame d ts).isSome
+  | .notify id d ts => decide (id = emcyCobId nid) && (entryOfFrame d ts).isSome
+  | .addCb _ => false
+  | .reset => false
+
+/-- the `for emcy in self.log[prev_log_size:]` loop: hand over the first match or go round again -/
+def Waiter.look (c : Consumer) (w : Waiter) : Option Entry → Waiter
+  | some e => { w with notified := false, res := some (.entry e) }
+  | none => { w with notified := false, prev := c.log.length }
+
+/-- `Condition.wait` of this thread returned (notification or time-out — the code does not ask
+    which) and the thread has the lock again; `time.time()` reads `now` -/
+def Waiter.resume (c : Consumer) (now : Nat) (w : Waiter) : Waiter :=
+  if w.res.isSome then w
+  else if c.log.length = w.prev then { w with notified := false, res := some .nothing }
+  else if now > w.deadline then { w with notified := false, res := some .nothing }
+  else w.look c ((c.log.drop w.prev).find? (matchesFilter w.filter))
+
+/-- what can happen in a program with one consumer and several waiting threads -/
+inductive SEv where
+  | ev (e : Ev)                  -- the rest of the program does something to the consumer
+  | runs (id : Nat) (now : Nat)  -- thread `id` comes back from `Condition.wait` at clock `now`
+deriving Repr, DecidableEq
+
+def sysStep (nid : Nat) (s : Consumer × List Waiter) : SEv → Consumer × List Waiter
+  | .ev e => ((step nid s.1 e).1, if notifies nid e then notifyAll s.2 else s.2)
+  | .runs id now => (s.1, s.2.map fun w => if w.id = id then w.resume s.1 now else w)
+
+def sysRun (nid : Nat) (s : Consumer × List Waiter) (sched : List SEv) : Consumer × List Waiter :=
+  sched.foldl (sysStep nid) s
+
+/-- the threads of a program: thread `i` waits with filter `specs[i].1` until `specs[i].2`; all of
+    them enter `wait` while the consumer is in state `c` -/
+def enterAll (c : Consumer) (specs : List (Option Nat × Nat)) : List Waiter :=
+  specs.zipIdx.map fun (sp, i) => Waiter.enter i sp.1 sp.2 c
+
+/-- the schedule the harness produces: every batch is delivered while the feeder holds the lock
+    (clock set to the batch's `now`); if it notified, every thread still waiting runs, in the
+    order `ids`; at the end the clock jumps to `tEnd` and every `Condition.wait` times out -/
+def rigSchedule (nid : Nat) (ids : List Nat) (wakes : List Wake) (tEnd : Nat) : List SEv :=
+  wakes.flatMap (fun w => w.evs.map SEv.ev ++
+    (if w.evs.any (notifies nid) then ids.map (SEv.runs · w.now) else [])) ++
+  ids.map (SEv.runs · tEnd)
+
+/-! ### long histories: run-length frames, and a runner that is linear in the history -/
+
+/-- the `i`-th frame of a run: code `(code0 + i·cstep) mod 2¹⁶`, register `(reg0 + i) mod 256`,
+    manufacturer bytes `i` (32 bit, LSB first) and `(7·i + 3) mod 256` -/
+def repFrame (code0 cstep reg0 i : Nat) : Bytes :=
+  [(code0 + i * cstep) % 256, (code0 + i * cstep) / 256 % 256, (reg0 + i) % 256,
+   i % 256, i / 256 % 256, i / 65536 % 256, i / 16777216 % 256, (7 * i + 3) % 256]
+
+/-- `n` frames handed to `on_emcy`, the `i`-th stamped `ts0 + i` -/
+def repEvs (n code0 cstep reg0 ts0 : Nat) : List Ev :=
+  (List.range n).map fun i => Ev.frame (repFrame code0 cstep reg0 i) (ts0 + i)
+
+/-- consumer with its lists kept newest-first, plus everything the driver prints about a history -/
+structure Fast where
+  rlog : List Entry
+  ractive : List Entry
+  callbacks : List Nat
+  nactive : Nat                     -- `len(active)`
+  rinv : List (Nat × Entry)         -- callback invocations, newest first
+  nraised : Nat                     -- events that raised
+  ralens : List Nat                 -- `len(active)` after every event, newest first
+deriving Repr, DecidableEq
+
+def Fast.ofConsumer (c : Consumer) : Fast :=
+  ⟨c.log.reverse, c.active.reverse, c.callbacks, c.active.length, [], 0, []⟩
+
+def Fast.consumer (s : Fast) : Consumer := ⟨s.rlog.reverse, s.ractive.reverse, s.callbacks⟩
+
+def Fast.onEmcy (s : Fast) (data : Bytes) (ts : Nat) : Fast :=
+  match entryOfFrame data ts with
+  | none => { s with nraised := s.nraised + 1, ralens := s.nactive :: s.ralens }
+  | some e =>
+    if isResetCode e.code then
+      { s with rlog := e :: s.rlog, ractive := [], nactive := 0,
+               rinv := (s.callbacks.map fun k => (k, e)).reverse ++ s.rinv, ralens := 0 :: s.ralens }
+    else
+      { s with rlog := e :: s.rlog, ractive := e :: s.ractive, nactive := s.nactive + 1,
+               rinv := (s.callbacks.map fun k => (k, e)).reverse ++ s.rinv,
+               ralens := (s.nactive + 1) :: s.ralens }
+
+def Fast.step (nid : Nat) (s : Fast) : Ev → Fast
+  | .frame d ts => s.onEmcy d ts
+  | .notify id d ts =>
+    if id = emcyCobId nid then s.onEmcy d ts else { s with ralens := s.nactive :: s.ralens }
+  | .addCb k => { s with callbacks := s.callbacks ++ [k], ralens := s.nactive :: s.ralens }
+  | .reset => { s with rlog := [], ractive := [], nactive := 0, ralens := 0 :: s.ralens }
+
+def runFast (nid : Nat) (s : Fast) (evs : List Ev) : Fast := evs.foldl (Fast.step nid) s
+
+/-- number of events of a trace that raised -/
+def countRaised (tr : List StepOut) : Nat := (tr.filter (·.raised)).length
+
 /-! ### `EmcyProducer` -/
 
 /-- `LocalNode.__init__`: `EmcyProducer(0x80 + self.id)` -/
